@@ -2,27 +2,34 @@
 
 The property is differential, so the oracle is the property statement itself: the SAME program (a short sequence
 of public operations) is run in lock-step on `bnp.open(p, lazy=True)` and on `bnp.open(p, lazy=False)` of the same
-well-formed file; after every step the two results must be equal (values normalised to plain Python; written bytes
-compared byte by byte) or the step must fail in both.  Nothing is computed with the lazy machinery for the eager
-side or vice versa: the eager table is the ordinary parsed BNPDataClass.
+well-formed file; after every step the two results must be equal (values normalised to plain Python row values;
+written bytes compared byte by byte, compressed outputs after decompression) or the step must fail in both.  The
+eager table is the ordinary parsed BNPDataClass, the reference the statement names; nothing else is assumed.
 
-Scope: small files (3 + 2 records of unequal widths, written by this file from the format specifications; BAM by
-rtc/refmodels/bam_writer.py) of every format that reads lazily: bed, bed6, bedGraph, narrowPeak, chrom.sizes, pairs,
-gfa, wig (internal comment lines), csv with a header line (generic delimited reader), FASTQ, two-line FASTA, VCF
-(typed INFO), SAM, BAM, and bed.gz; whole read (t = file A, u = file B, two readers) and chunked read (t = first
-chunk, u = last chunk of one reader).  Programs: every sequence up to length L over the alphabet
-{len, get f, t[slice], t[mask], t[int list], t[i], concatenate([t,u]) / ([u,t]) / ([t,t]), swap t<->u,
-replace(t, f=array), replace(t, f=t.f+1), t.f = array, tolist, str, write}; after the last step a full observation
-(every field, tolist, written bytes) is compared as well.  Above the exhaustive length programs are sampled with
-col.rng.
+Scope: small files (file A 3 records, file B 2 records, unequal widths; written by this file from the format
+specifications, BAM by rtc/refmodels/bam_writer.py, values in the canonical form of the library's writer) of the
+formats that read lazily: bed, bed6, bed12, bedGraph, narrowPeak, chrom.sizes, pairs, gfa, wig (internal comment
+lines), csv with a header line (generic delimited reader), FASTQ, two-line FASTA, VCF (typed INFO), VCF without
+header (INFO as text), SAM, BAM, bed.gz; whole read (t = file A, u = file B, two readers) and chunked read
+(t = first chunk, u = last chunk of one reader over A+B).
+Programs: every sequence of the stated lengths over {len, get f, t[slice], t[mask], t[int list], t[i],
+concatenate([t,u]) / ([u,t]) / ([t,t]) / ([t,u,t]), swap t<->u, replace(t, f=array), replace(t, f=t.f+1),
+t.f = array, tolist, iter, str, write}; after the last step a full observation (len, every field in declaration
+order, tolist, written bytes) is compared as well.  Longer programs are sampled with col.rng.
 
-Failing programs are delta-minimised (ops deleted while the same divergence remains, parameters replaced by the
-canonical ones when the divergence does not depend on them) and the signature is built from the minimal program,
-so one defect collapses to one signature per format.
+Signatures.  A failing program is delta-minimised (ops deleted while the same divergence remains; each remaining op
+named by its most canonical variant that keeps the divergence) and the signature is
+    <format>:<minimal program shape>[:chunked-only]=><place>:<divergence>
+place = the op that raised / "observe" (any value observation) / "write"; divergence = values-differ, bytes-differ,
+only-lazy-fails:<Exc>, only-eager-fails:<Exc>.  Three regions collapse to one signature per format whatever the
+program: <format>:write:header-or-comment-lines-differ (written bytes equal after dropping header / comment
+lines), <format>:empty-table=>... (the table operated on has no rows), <format>:single-row-access:... (numpy
+scalar-conversion TypeError of npstructures' ragged row access that hits one mode only).
 """
 import dataclasses
 import itertools
 import os
+import time
 
 from .common import Collector, TmpDir
 
@@ -82,6 +89,9 @@ def _buffer(name):
     if name == "bed6":
         from bionumpy.io.delimited_buffers import Bed6Buffer
         return Bed6Buffer
+    if name == "bed12":
+        from bionumpy.io.delimited_buffers import Bed12Buffer
+        return Bed12Buffer
     if name == "fasta2":
         from bionumpy.io import TwoLineFastaBuffer
         return TwoLineFastaBuffer
@@ -118,6 +128,12 @@ FORMATS = {
     "bed6": (".bed", _tsv,
              [("chr1", 1, 5, "n1", 0, "-"), ("chr2", 30, 1000, "name2", 10, "+"), ("chr10", 100, 20000, "x", 200, "+")],
              [("chrX", 7, 8, "longer_name", 5, "+"), ("c", 12345, 12346, "y", 1000, "-")]),
+    "bed12": (".bed", _tsv,
+              [("chr21", 10079666, 10120808, "uc002yiv.1", 0, "-", 10081686, 10120608, "0", 4, "528,91,101,215", "0,1930,39750,40927"),
+               ("chr21", 10080031, 10081687, "uc002yiw.1", 0, "-", 10080031, 10080031, "0", 2, "200,91", "0,1565"),
+               ("chr1", 5, 100, "x", 7, "+", 6, 50, "0", 1, "95", "0")],
+              [("chrX", 1000, 2000, "gene", 100, "+", 1100, 1900, "0", 3, "10,20,30", "0,100,970"),
+               ("c", 7, 9, "g2", 0, "-", 7, 9, "0", 1, "2", "0")]),
     "bdg": (".bdg", _tsv,
             [("chr1", 1, 5, "0.5"), ("chr2", 30, 1000, "1.25"), ("chr10", 100, 20000, "-3.0")],
             [("chrX", 7, 8, "10.0"), ("c", 12345, 12346, "0.125")]),
@@ -193,12 +209,14 @@ def file_name(fmt, which):
 
 
 def chunk_sizes(fmt):
-    """min_chunk_size values for the chunked mode (bytes of the uncompressed stream after the header)"""
+    """min_chunk_size values for the chunked mode: about a half and about a third of the record bytes (the header
+    is read separately), so that the 5 records come as 2-3 chunks of 1-3 records"""
     base = GZ_FORMATS.get(fmt, fmt)
-    n = len(FORMATS[base][1](FORMATS[base][2] + FORMATS[base][3])) if base != "bam" else 400
     if base == "bam":
-        return [150, 200]
-    return [max(n // 3, 8), max(n // 2, 8)]
+        return [200, 150]
+    writer, A, B = FORMATS[base][1:]
+    n = len(writer(A + B)) - len(writer([]))
+    return [max(n // 2, 8), max(n // 3, 8)]
 
 
 # ----------------------------------------------------------------------------------------------------------------
@@ -433,6 +451,8 @@ def apply_op(env, op, regs, arg, tag):
         return norm(t.tolist())
     if kind == "str":
         return str(t)
+    if kind == "iter":
+        return [norm(e) for e in t]
     if kind == "write":
         return env.write(t, tag)
     if kind == "item":
@@ -441,9 +461,7 @@ def apply_op(env, op, regs, arg, tag):
         regs[0] = t[arg]
         return None
     if kind == "cat":
-        a = {"t": t, "u": u}[op[1][0]]
-        b = {"t": t, "u": u}[op[1][1]]
-        regs[0] = np.concatenate([a, b])
+        regs[0] = np.concatenate([{"t": t, "u": u}[c] for c in op[1]])
         return None
     if kind == "swap":
         regs[0], regs[1] = u, t
@@ -459,7 +477,7 @@ def apply_op(env, op, regs, arg, tag):
     raise ValueError(op)
 
 
-OBSERVE = ("len", "get", "tolist", "item", "str")
+OBSERVE = ("len", "get", "tolist", "item", "str", "iter")
 
 
 class Divergence:
@@ -472,7 +490,7 @@ class Divergence:
         self.empty = False   # the table operated on has no rows
 
     def key(self):
-        return (self.where, self.kind, self.empty)
+        return (self.where, self.kind, self.empty, getattr(self, "header", None))
 
 
 def _outcome(fn):
@@ -493,8 +511,13 @@ def _compare(step, where, lo, eo, bytes_like=False, fmt=None):
         kind = "values-differ"
         if bytes_like:
             kind = "bytes-differ"
-            if strip_comment_lines(fmt, lo[1]) == strip_comment_lines(fmt, eo[1]):
+            lb, eb = strip_comment_lines(fmt, lo[1]), strip_comment_lines(fmt, eo[1])
+            if lb == eb:
                 kind = HEADER_ONLY
+                nl, ne = len(lo[1]) - len(lb), len(eo[1]) - len(eb)
+                d = Divergence(step, where, kind, "lazy %r != eager %r" % (_short(lo[1]), _short(eo[1])))
+                d.header = "eager-writes-less" if ne < nl else ("lazy-writes-less" if nl < ne else "same-size-other-text")
+                return None, d
         return None, Divergence(step, where, kind, "lazy %r != eager %r" % (_short(lo[1]), _short(eo[1])))
     return "equal", None
 
@@ -597,7 +620,7 @@ def _canonical_candidates(op, fields):
         return [(["idx", CANON_IDX], "idx")], "idx." + op[1]
     if k == "cat":
         return [(["cat", "tu"], "cat")], "cat." + op[1]
-    if k in ("get", "tolist", "write", "str", "item", "len"):
+    if k in ("get", "tolist", "write", "str", "item", "len", "iter"):
         own = k if k != "get" else "get(%s)" % op[1]
         return [(["get", names[0]], "get")], own
     if k in ("replace", "set"):
@@ -667,7 +690,7 @@ def signature(env, labels, div, chunked_only=False):
 def collapsed_signature(env, div):
     """divergences that cover a whole region of the scope whatever the program: one signature, no minimisation"""
     if div.kind == HEADER_ONLY:
-        return "%s:write:%s" % (env.fmt, HEADER_ONLY)
+        return "%s:write:%s:%s" % (env.fmt, HEADER_ONLY, getattr(div, "header", "?"))
     if div.empty:
         return "%s:empty-table=>%s:%s" % (env.fmt, div.where, div.kind)
     if "only 0-dimensional arrays can be converted" in div.detail:
@@ -718,7 +741,8 @@ def alphabet(fields, level):
         return out
     allrepl = [f for f in names if kinds[f] != "other"]
     seqids = [f for f in names if kinds[f] == "seqid"]
-    wide = [["item", "first"], ["item", "np_last"], ["item", "neg"], ["str"]] + [["get", f] for f in names] + \
+    wide = [["item", "first"], ["item", "np_last"], ["item", "neg"], ["str"], ["iter"], ["cat", "tut"]] + \
+           [["get", f] for f in names] + \
            [["idx", x] for x in ("s_head", "s_step", "s_mid", "s_all", "m_nofirst", "m_none", "m_all", "i_rev", "i_neg",
                                  "i_last")] + \
            [["replace", f, "fresh"] for f in allrepl] + [["set", f, "fresh2"] for f in repl] + \
@@ -729,7 +753,7 @@ def alphabet(fields, level):
     return out
 
 
-PURE = ("len", "tolist", "write", "item", "str", "get")
+PURE = ("len", "tolist", "write", "item", "str", "get", "iter")
 
 
 def redundant(prog):
@@ -896,7 +920,7 @@ def run(tier="quick", seed=0):
                 if redundant(prog):
                     continue
                 r.evaluate(fmt, mode, [list(o) for o in prog], contract)
-                if col.evaluations % 20 == 0 and (__import__("time").time() - col.t0) > sample_budget:
+                if col.evaluations % 20 == 0 and (time.time() - col.t0) > sample_budget:
                     stop = True
                     col.exhaustive = False
                     break
